@@ -313,7 +313,7 @@ def sl3456(F, R):
                     if a == strip_sites(v1):
                         member["v1"] = True
                         continue
-            if e.body.asserted(f, e.site):
+            if asserted_precondition(e.body, f, e.site):
                 continue
             extra.append(show(f, b))
         # v1's membership may come from the outer iteration walking the visited set itself
@@ -349,7 +349,7 @@ def sl3456(F, R):
                 for a in adds:
                     if strip_sites(strip_load(a.args[1])) != strip_sites(v) or not b.reaches(a.site, e.site):
                         continue
-                    ex = [f for f in a.facts if not (is_iter_next_fact(f) or is_isempty_fact(f) or "Level" in repr(f) or is_pop_none_fact(f) or
+                    ex = [f for f in a.conditions() if not (is_iter_next_fact(f) or is_isempty_fact(f) or is_pop_none_fact(f) or
                                                       (f[0] == "bool" and f[2] is True and strip_load(f[1])[0] == "call" and
                                                        strip_load(f[1])[1].split("::")[-1] == "contains"))]
                     if not ex:
